@@ -111,6 +111,8 @@ def install(instrument: bool):
     for m in list(sys.modules):
         if m == PKG or m.startswith(PKG + "."):
             raise RuntimeError(f"{m} imported before the loader was installed")
+    if not os.path.isfile(os.path.join(pkg_dir(), "__init__.py")):
+        raise RuntimeError(f"no json_to_models package under VERIF_REPO={repo_dir()}")
     sys.dont_write_bytecode = True
     from . import simset
     simset.SCHED.pkg_dir = pkg_dir() + os.sep
